@@ -127,12 +127,20 @@ def gen(rng, tier, allow_required=False, mod_id='C01'):
           via = 'getcfg_name'
         else:
           ambient = _scope(rng, 2)
+      # some calls of the history carry gin.REQUIRED markers and may fail
+      # cleanly for want of a binding; the calls after them are judged as ever
+      fault_call = (not allow_required) and rng.random() < 0.1
       call = cm.gen_call(rng, spec, model, sc, uid,
-                         allow_required=allow_required,
-                         allow_failing=allow_required)
+                         allow_required=allow_required or fault_call,
+                         allow_failing=allow_required or fault_call)
       if call is None:
         continue
       pos, kw = call
+      if fault_call:
+        ops.append({'op': 'call', 'probe': spec['name'], 'scope': sc,
+                    'ambient': ambient, 'pos': pos, 'kw': kw, 'via': via,
+                    'noise': None, 'weird_values': None, 'raises_base': False})
+        continue
       ops.append({'op': 'call', 'probe': spec['name'], 'scope': sc,
                   'ambient': ambient, 'pos': pos, 'kw': kw, 'via': via,
                   'noise': rng.choice([None, None, None, 'invalid_scope',
